@@ -17,7 +17,7 @@ import (
 // C03: the hook sees exactly the children the parent owns, in the documented shape (DESIGN §4 C03).
 // One sync per case; the expected view is computed independently from the cache content.
 
-var c03Roles = []string{"absent", "owned+marker", "owned-nomarker", "owned-othermarker", "foreign-owned+marker", "orphan+marker", "owned+marker+extra-owner", "owned+marker-deleting", "plain-owner+foreign-controller+marker"}
+var c03Roles = []string{"absent", "owned+marker", "owned-nomarker", "owned-othermarker", "foreign-owned+marker", "orphan+marker", "owned+marker+extra-owner", "owned+marker-deleting", "plain-owner+foreign-controller+marker", "owned-by-namesake-of-other-kind+marker"}
 
 type c03Slot struct {
 	Role string
@@ -66,7 +66,12 @@ func c03Run(c c03Case) []mc.Finding {
 	for _, r := range c.Declared {
 		declared = append(declared, kindByResource(r))
 	}
-	w := newDWorld(dcOpt{parents: []*sim.Kind{pk}, attachments: declared, finalize: c.Mode > 0}, false)
+	// the decorator decorates a second parent kind as well, and a parent of that kind has the same namespace and
+	// name as the one under test: its attachments are its own
+	w := newDWorld(dcOpt{parents: []*sim.Kind{pk, kit.NoThing}, attachments: declared, finalize: c.Mode > 0}, false)
+	namesake := kit.Obj(kit.NoThing, "n1", "p")
+	kit.Field(namesake, "puid-nk", "metadata", "uid")
+	w.Sim.Seed(namesake)
 	parent := kit.Obj(pk, pns, "p")
 	kit.Field(parent, "puid", "metadata", "uid")
 	if c.Mode == 2 {
@@ -106,6 +111,8 @@ func c03Run(c c03Case) []mc.Finding {
 			kit.Ann(kit.Owners(o, kit.OwnerRef(pk, "q", "quid", true), kit.OwnerRef(pk, "p", "puid", false)), marker, "dc")
 		case "owned+marker-deleting":
 			kit.Deleting(kit.Finalizers(kit.Ann(kit.Owners(o, ours), marker, "dc"), "ex.io/hold"))
+		case "owned-by-namesake-of-other-kind+marker":
+			kit.Ann(kit.Owners(o, kit.OwnerRef(kit.NoThing, "p", "puid-nk", true)), marker, "dc")
 		}
 		w.Sim.Seed(o)
 		// independent expectation
